@@ -76,6 +76,12 @@ func TestVerifBoundedSetLinks(t *testing.T) {
 
 	// keys chosen so that byte order, prefixes and the empty-looking cases are exercised
 	universe := []string{"a", "ab", "b", "c"}
+	maxLen := 4
+	if os.Getenv("VERIF_BOUNDED_LEVEL") == "thorough" {
+		// the thorough tier adds a fifth target (a key that sorts between existing ones) and one more list position
+		universe = []string{"a", "ab", "b", "ba", "c"}
+		maxLen = 5
+	}
 	const missing = "zz"
 	lefts := []string{"L1", "L2"}
 
@@ -110,7 +116,7 @@ func TestVerifBoundedSetLinks(t *testing.T) {
 			gen(append(prefix, a), n-1)
 		}
 	}
-	gen(nil, 4)
+	gen(nil, maxLen)
 
 	cases, fails := 0, 0
 	fail := func(format string, args ...interface{}) {
